@@ -1,0 +1,52 @@
+//go:build verif
+
+// Contracts for deductive verification (comment-only; compiled only with -tags verif).
+// Syntax and semantics: /verif/DESIGN.md §2.6 and Appendix A.
+
+package l2connect
+
+// voteSum(n) is a definitional helper: the voting power counted for the first n votes, i.e. the power of
+// votes that are commit votes of validators recorded in the L1 validator snapshot (g.validators).
+//@ func ValidateVoteExtensions
+//@   let votes := extCommit.Votes
+//@   assumes voteSum(0) == 0                                                                                       // DEF voteSum
+//@   assumes forall n int :: 0 <= n && n < len(votes) ==> voteSum(n + 1) == voteSum(n) +
+//@        ((g.validators[votes[n].Validator.Address] != None && votes[n].BlockIdFlag == 2) ? bondedTokens(val(g.validators[votes[n].Validator.Address])) : 0)   // DEF voteSum
+//@   assumes forall n int :: 0 <= n && n <= len(votes) ==> 0 <= voteSum(n) && voteSum(n) < 4611686018427387904                                        // A-POWER: total voting power fits 62 bits
+//@   assumes 0 <= totalBonded(g.validators) && totalBonded(g.validators) < 4611686018427387904                                                        // A-POWER
+//@   assumes forall k bytes :: g.validators[k] != None ==> 0 <= bondedTokens(val(g.validators[k])) && bondedTokens(val(g.validators[k])) < 4611686018427387904
+//@   ensures err == nil ==> forall j int :: 0 <= j && j < len(votes) && g.validators[votes[j].Validator.Address] != None && votes[j].BlockIdFlag == 2 ==>
+//@        sigOK(pubKeyFromProto(cmtConsPublicKey(val(g.validators[votes[j].Validator.Address]))),
+//@              canonVEBytes(chainID, height, extCommit.Round, votes[j].VoteExtension),
+//@              votes[j].ExtensionSignature) && len(votes[j].ExtensionSignature) > 0                                                                     // C15: every_counted_vote_is_signed_over_chain_height_round_extension
+//@   ensures err == nil ==> forall j int :: 0 <= j && j < len(votes) && g.validators[votes[j].Validator.Address] != None && votes[j].BlockIdFlag != 2 ==>
+//@        len(votes[j].VoteExtension) == 0 && len(votes[j].ExtensionSignature) == 0                                                                      // C15: non_commit_votes_carry_nothing
+//@   ensures err == nil ==> totalBonded(g.validators) > 0 && voteSum(len(votes)) >= (totalBonded(g.validators) * 2) / 3 + 1                                                                  // C15: two_thirds_quorum_of_signed_commit_votes
+//@   loop 0 invariant 0 <= $i && $i <= len(votes) && sumVP == voteSum($i)
+//@   loop 0 invariant forall j int :: 0 <= j && j < $i && g.validators[votes[j].Validator.Address] != None && votes[j].BlockIdFlag == 2 ==>
+//@        sigOK(pubKeyFromProto(cmtConsPublicKey(val(g.validators[votes[j].Validator.Address]))),
+//@              canonVEBytes(chainID, height, extCommit.Round, votes[j].VoteExtension),
+//@              votes[j].ExtensionSignature) && len(votes[j].ExtensionSignature) > 0
+//@   loop 0 invariant forall j int :: 0 <= j && j < $i && g.validators[votes[j].Validator.Address] != None && votes[j].BlockIdFlag != 2 ==>
+//@        len(votes[j].VoteExtension) == 0 && len(votes[j].ExtensionSignature) == 0
+//@   assigns \nothing
+
+//@ func GetOracleVotes
+//@   ensures err == nil ==> len(ret0) == len(extendedCommitInfo.Votes)
+//@   ensures err == nil ==> forall j int :: 0 <= j && j < len(ret0) ==> ret0[j].ConsAddress == extendedCommitInfo.Votes[j].Validator.Address
+//@        && ret0[j].OracleVoteExtension == decodeVE(extendedCommitInfo.Votes[j].VoteExtension)                       // C15: each_vote_keyed_by_its_validator_and_decoded_extension
+//@   loop 0 invariant 0 <= $i && $i <= len(extendedCommitInfo.Votes) && len(votes) == len(extendedCommitInfo.Votes)
+//@   loop 0 invariant forall j int :: 0 <= j && j < $i ==> votes[j].ConsAddress == extendedCommitInfo.Votes[j].Validator.Address
+//@        && votes[j].OracleVoteExtension == decodeVE(extendedCommitInfo.Votes[j].VoteExtension)
+//@   assigns \nothing
+
+//@ func WritePrices
+//@   ensures err == nil ==> forall cp `S_pkg_types_CurrencyPair` :: oracle.price[cp] != old(oracle.price)[cp] ==>
+//@        oracle.price[cp] != None && val(oracle.price[cp]).BlockTimestamp == updatedTime
+//@        && (old(oracle.price)[cp] == None || updatedTime > val(old(oracle.price)[cp]).BlockTimestamp)
+//@        && prices[cp] != None && val(prices[cp]) != None && val(oracle.price[cp]).Price == val(val(prices[cp]))                  // C15: accepted_timestamp_strictly_increases_per_pair
+//@   loop 0 invariant forall cp `S_pkg_types_CurrencyPair` :: oracle.price[cp] != old(oracle.price)[cp] ==>
+//@        oracle.price[cp] != None && val(oracle.price[cp]).BlockTimestamp == updatedTime
+//@        && (old(oracle.price)[cp] == None || updatedTime > val(old(oracle.price)[cp]).BlockTimestamp)
+//@        && prices[cp] != None && val(prices[cp]) != None && val(oracle.price[cp]).Price == val(val(prices[cp]))
+//@   assigns oracle.price
